@@ -15,6 +15,8 @@ pub enum StreamFault {
     ErrAt { at: usize, errno: &'static str },
     /// EBADF: std treats it as success and drops the data
     Closed,
+    /// not a fault: the descriptor is a terminal (a pty in the real tier); bytes arrive as usual
+    Tty,
 }
 
 #[derive(Clone, Debug)]
@@ -47,7 +49,7 @@ impl Stream {
             return Ok(());
         }
         match self.fault.clone() {
-            StreamFault::None => {
+            StreamFault::None | StreamFault::Tty => {
                 self.delivered.extend_from_slice(bytes);
                 Ok(())
             }
@@ -107,6 +109,8 @@ pub struct Sim {
     pub cb: CbPlan,
     /// drop print-macro output unformatted (while validating generated definitions)
     pub mute: bool,
+    /// `Bell` values ring only inside a simulated process launch (C11)
+    pub bells: bool,
 }
 
 impl Sim {
@@ -123,6 +127,7 @@ impl Sim {
             budget: u64::MAX,
             cb: CbPlan::default(),
             mute: false,
+            bells: false,
         }
     }
 
@@ -235,6 +240,17 @@ impl bpaf::__verif::World for Delegate {
 
 pub fn install() {
     bpaf::__verif::install(Box::new(Delegate));
+}
+
+/// what a user value's destructor prints: goes to the simulated stdout like any `println!`, but
+/// only during a launch and only while the simulated process is alive (a real process that
+/// calls `exit` runs no destructors; the simulated exit is an unwind, which does)
+pub fn noise(text: &str) {
+    let live = with(|s| s.bells && s.exit.is_none());
+    if live {
+        use bpaf::__verif::World;
+        let _ = Delegate.write(1, text.as_bytes());
+    }
 }
 
 /// Called by every harness callback: counts the call and applies the fault plan.
